@@ -438,15 +438,67 @@ func c01Concat(c c01ConcatCase) (fs []rep.Finding) {
 	return
 }
 
+// c01VarInt: the three views of a length prefix - Bytes, Length, ReadFrom (and the slice decoder and
+// the "will the next value be longer" query the size arithmetic uses) - agree with each other and
+// with the reference classes for one value.
+type c01VarIntCase struct {
+	V uint64 `json:"v"`
+}
+
+func c01VarInt(c c01VarIntCase) (fs []rep.Finding) {
+	v := bt.VarInt(c.V)
+	want := txref.VarInt(c.V)
+	b := v.Bytes()
+	if !bytes.Equal(b, want) {
+		fs = append(fs, rep.F("VarInt|Bytes", fmt.Sprintf("%d encodes as %x, want %x", c.V, b, want)))
+	}
+	if v.Length() != len(want) {
+		fs = append(fs, rep.F("VarInt|Length", fmt.Sprintf("Length(%d)=%d, encoding has %d bytes", c.V, v.Length(), len(want))))
+	}
+	var back bt.VarInt
+	n, err := back.ReadFrom(bytes.NewReader(append(append([]byte(nil), want...), 0xaa, 0xbb)))
+	if err != nil || uint64(back) != c.V || int(n) != len(want) {
+		fs = append(fs, rep.F("VarInt|ReadFrom", fmt.Sprintf("%x read back as %d using %d bytes (err=%v)", want, uint64(back), n, err)))
+	}
+	if got, used := bt.NewVarIntFromBytes(append(append([]byte(nil), want...), 0xaa)); uint64(got) != c.V || used != len(want) {
+		fs = append(fs, rep.F("VarInt|NewVarIntFromBytes", fmt.Sprintf("%x decoded as %d using %d bytes", want, uint64(got), used)))
+	}
+	inc := 0
+	if c.V == ^uint64(0) {
+		inc = -1
+	} else {
+		inc = len(txref.VarInt(c.V+1)) - len(want)
+	}
+	if got := v.UpperLimitInc(); got != inc {
+		fs = append(fs, rep.F("VarInt|UpperLimitInc", fmt.Sprintf("UpperLimitInc(%d)=%d, the next value is %d bytes longer", c.V, got, inc)))
+	}
+	return
+}
+
 func init() {
 	p := register(&Prop{ID: "C01", Level: "exploration",
-		Rule: "exhaustive over: (1) product of shapes nIn,nOut in 0..3 x per-input {vout,seq in 3 values, script len 0/1/2/nil, prev value 2, prev script nil/empty/1} x per-output {4 values, len 0/1/2} x version,locktime in 7 boundary values each, plus one-dimension-at-a-time boundary cross (counts and script lengths 252,253,65535,65536); each through Bytes/ExtendedBytes/TxID/NewTxFromBytes/NewTxFromStream/ReadFrom/Clone against the reference codec; (2) every such serialisation with each length prefix (alone and in pairs) re-encoded in each wider class; (2b) every truncation of those serialisations; (3) all strings <version>[marker]x with x of length<=8/9 (quick/thorough) over {00,01,02,EF,FD,FE,FF}; (4) all ordered pairs/triples of 12 serialisations x 0..2 trailing bytes through stream, reader and counted-list decoding with the count in every varint class, the list variable then parsing a shorter and an empty list. distinct_nontrivial = distinct serialisations/strings on which the library accepted",
+		Rule: "exhaustive over: (0) the length prefix alone: every value 0..70000 and 2^k-2..2^k+2 for k=17..64 through VarInt.Bytes/Length/ReadFrom/NewVarIntFromBytes/UpperLimitInc against the reference classes; (1) product of shapes nIn,nOut in 0..3 x per-input {vout,seq in 3 values, script len 0/1/2/nil, prev value 2, prev script nil/empty/1} x per-output {4 values, len 0/1/2} x version,locktime in 7 boundary values each, plus one-dimension-at-a-time boundary cross (counts and script lengths 252,253,65535,65536); each through Bytes/ExtendedBytes/TxID/NewTxFromBytes/NewTxFromStream/ReadFrom/Clone against the reference codec; (2) every such serialisation with each length prefix (alone and in pairs) re-encoded in each wider class; (2b) every truncation of those serialisations; (3) all strings <version>[marker]x with x of length<=8/9 (quick/thorough) over {00,01,02,EF,FD,FE,FF}; (4) all ordered pairs/triples of 12 serialisations x 0..2 trailing bytes through stream, reader and counted-list decoding with the count in every varint class, the list variable then parsing a shorter and an empty list. distinct_nontrivial = distinct serialisations/strings on which the library accepted",
 	})
 	spStruct := NewSpace(p, "struct", c01Struct)
 	spBytes := NewSpace(p, "bytes", c01Bytes)
 	spConcat := NewSpace(p, "concat", c01Concat)
+	spVar := NewSpace(p, "varint", c01VarInt)
 	p.Run = func(r *rep.Run, thorough bool) {
-		// ---- space 1
+		// ---- space 0: the length prefix on its own, every value up to 70,000 and around every power of two
+		spVar.Each(r, func(yield func(c01VarIntCase)) {
+			for v := uint64(0); v <= 70000; v++ {
+				yield(c01VarIntCase{v})
+			}
+			for k := 17; k <= 64; k++ {
+				var p2 uint64
+				if k < 64 {
+					p2 = 1 << uint(k)
+				}
+				for _, d := range []uint64{^uint64(1), ^uint64(0), 0, 1, 2} { // -2, -1, 0, +1, +2
+					yield(c01VarIntCase{p2 + d})
+				}
+			}
+		})
 		var recipes []txRecipe
 		u3 := []uint32{0, 1, 0xffffffff}
 		maxN := 3
